@@ -868,8 +868,10 @@ impl Inner {
                     };
                 }
 
-                // The stream must be receive open
-                if !stream.state.ensure_recv_open()? {
+                // The stream must be receive open. A stream that the peer has
+                // closed or reset itself does not qualify either; do not let its
+                // closed-state error stand in for the connection error.
+                if !matches!(stream.state.ensure_recv_open(), Ok(true)) {
                     proto_err!(conn: "recv_push_promise: initiating stream is not opened");
                     return Err(Error::library_go_away(Reason::PROTOCOL_ERROR));
                 }
